@@ -30,6 +30,8 @@ type Scenario struct {
 	PoolPoints  bool `json:"pool_points,omitempty"`
 	YieldPoints bool `json:"yield_points,omitempty"`
 	StoreYield  bool `json:"store_yield,omitempty"`
+	// StoreCtx: the storage fails every callback with the context's error once cancelled.
+	StoreCtx bool `json:"store_ctx,omitempty"`
 }
 
 // Dev is one deviation from the default schedule.
@@ -87,6 +89,7 @@ func RunOnce(sc *Scenario, s Sched) *Obs {
 		panic(err)
 	}
 	st.Faults = sc.Case.Faults
+	st.HonorCtx = sc.StoreCtx
 	if sc.StoreYield {
 		st.Hook = verifshim.Yield
 	}
